@@ -1574,7 +1574,7 @@ fn c16(bits: &[bool], tlen: usize, fill: &str) -> String {
         }
         for i in [n, n + 1, n + 7, n + 8, 65535usize.max(n), 65536usize.max(n), 65536 + n, 256 + n - 1, 65536 + n - 1, (1usize << 32) + n - 1, (1usize << 61) + n - 1, (1usize << 63) + n - 1, 1usize << 63, usize::MAX - 1, usize::MAX] {
             if catch(|| c.get(i)) != Some(None) {
-                return Err(format!("get({i}) with {n} coils gives {:?}, expected None", catch(|| c.get(i))));
+                return Err(format!("get({i}) with {n} coils {}, expected None", match catch(|| c.get(i)) { None => "panics".to_string(), Some(v) => format!("gives {v:?}") }));
             }
         }
         match catch(|| c.into_iter().take(c.len() + 2).collect::<Vec<bool>>()) {
@@ -1634,7 +1634,7 @@ fn c17(ws: &[u16], tlen: usize, fill: &str) -> String {
         }
         for i in [n, n + 1, 255usize.max(n), 256 + n, 65536 + n, (1usize << 32) + n - 1, (1usize << 62) + n - 1, usize::MAX / 2, (1usize << 63) + n - 1, 1usize << 63, usize::MAX - 1, usize::MAX] {
             if catch(|| d.get(i)) != Some(None) {
-                return Err(format!("get({i}) with {n} words gives {:?}, expected None", catch(|| d.get(i))));
+                return Err(format!("get({i}) with {n} words {}, expected None", match catch(|| d.get(i)) { None => "panics".to_string(), Some(v) => format!("gives {v:?}") }));
             }
         }
         match catch(|| d.into_iter().take(d.len() + 2).collect::<Vec<u16>>()) {
